@@ -1128,6 +1128,22 @@ fn mint_case(ctx: &mut Ctx, r: &mut Rng, _i: u64) {
             }
         }
         if !any_err {
+            // whatever the mint builder accepted is what the transaction builder balances with: its totals
+            // return (a value or an error), whether or not build() would accept the amounts
+            let cfg = TransactionBuilderConfigBuilder::new()
+                .fee_algo(&LinearFee::new(&BigNum::from(44u64), &BigNum::from(155_381u64)))
+                .pool_deposit(&BigNum::from(500_000_000u64))
+                .key_deposit(&BigNum::from(2_000_000u64))
+                .max_value_size(5000)
+                .max_tx_size(16384)
+                .coins_per_utxo_byte(&BigNum::from(4310u64))
+                .build()
+                .unwrap();
+            let mut tb = TransactionBuilder::new(&cfg);
+            tb.set_mint_builder(&mb);
+            if std::panic::catch_unwind(std::panic::AssertUnwindSafe(|| (tb.get_total_input().is_ok(), tb.get_total_output().is_ok()))).is_err() {
+                bad.push(("MintBuilder->TransactionBuilder.get_total_input/output/panics".into(), String::new()));
+            }
             match mb.build() {
                 Ok(mint) => {
                     // read back every entry
